@@ -204,13 +204,27 @@ def check(ctx):
     if nomove is None or not q_calls or not probes or not incheck:
         raise AnalysisBroken('search(): mate test / quiescence call / probe / is_in_check anchors not found')
     # the no-move return "dominates" later code in the sense that later code is only reached on its false edge
+    # the test that guards the no-move return, as a normalised atom: whatever spells "the list is empty" there
+    from rules.norm import Norm as _N4, Unknown as _U4
+    n4 = _N4(s)
+    nm_if = next((a for a in s.ancestors(nomove) if a['k'] == 'IfStmt'), None)
+    if nm_if is None:
+        raise AnalysisBroken('C08: the no-legal-move return of search() is not the arm of an if')
+    try:
+        empty_atom = n4.atom(kids(nm_if)[0])
+        empty_neg = n4.atom(kids(nm_if)[0], False)
+    except _U4:
+        raise AnalysisBroken('C08: the test of the no-legal-move return of search() is not a single comparison')
+
     def after_nomove(x):
+        if s.cfg.node_dominates(nm_if, x) is False and not s.cfg.node_dominates(kids(nm_if)[0], x):
+            return False
         for cond, truth in guard_facts(s, x):
-            cc = strip_casts(cond)
-            if cc['k'] == 'BinaryOperator' and cc.get('op') == '==' and not truth and \
-                    const_of(strip_casts(kids(cc)[1])) == 0 and \
-                    short(strip_casts(kids(cc)[0]).get('ref', {}).get('n', '')) == 'n_moves':
-                return True
+            try:
+                if n4.atom(cond, truth) == empty_neg or (truth is False and n4.atom(cond) == empty_atom):
+                    return True
+            except _U4:
+                continue
         return False
     ctx.ob('C08.R4.mate-before-quiescence', 'search', all(after_nomove(x) for x in q_calls),
            'the "no legal move" return is taken before search() can switch to quiescence (mate-in-one visible at depth 1)',
